@@ -7,7 +7,7 @@
    Compared only, not proved (stated as such, DESIGN section 6/11): agreement with the standard
    library's encoding/json on reflection-driven encoding/decoding (struct tags, omitempty,
    embedding, streams), and Compact/Indent through the scanner loop. *)
-From JP Require Import Bytes Json Text Strings Den ImplV5 Codec.
+From JP Require Import Bytes Json Text Strings Den ImplV5 Codec Scan ScanFacts.
 
 Theorem C17_decode_encode_string : forall esc s, utf8 s -> unquote (quote esc s) = s.
 Proof. exact unquote_quote. Qed.
@@ -48,6 +48,31 @@ Print Assumptions C17_encode_rune_valid.
 
 (* a body with a two-byte character, a four-byte character, a lone surrogate escape, an escape
    and an HTML character *)
+(* Compact (with either escape setting) of the loop model over the scanner translated from
+   scanner.go is the compact print of the text's parse tree — it changes only insignificant white
+   space and, with escaping, the spelling of < > & U+2028 U+2029 — and fails exactly on ill-formed
+   text; both escape settings print the same tree *)
+Theorem C17_compact_is_print : forall esc bs,
+  compact_go esc bs = match parse bs with Some t => Some (print esc t) | None => None end.
+Proof. exact compact_go_spec. Qed.
+Print Assumptions C17_compact_is_print.
+
+(* Indent of a well-formed text is the indented print of its parse tree followed by the white space
+   that followed the value (Go's Indent keeps trailing white space: see indent_keeps_trailing_space) *)
+Theorem C17_indent_is_pp : forall ind bs t, parse bs = Some t ->
+  exists rest, suffix rest bs /\ skip_ws rest = [] /\ indent_go ind bs = Some (pp false ind 0 t ++ rest).
+Proof. exact indent_go_parse. Qed.
+Print Assumptions C17_indent_is_pp.
+
+Theorem C17_indent_is_pp_exact : forall ind bs t, parse bs = Some t -> ends_ws bs = false ->
+  indent_go ind bs = Some (pp false ind 0 t).
+Proof. exact indent_go_pp_exact. Qed.
+Print Assumptions C17_indent_is_pp_exact.
+
+Theorem C17_indent_rejects_illformed : forall ind bs, parse bs = None -> indent_go ind bs = None.
+Proof. exact indent_go_none. Qed.
+Print Assumptions C17_indent_rejects_illformed.
+
 Example C17_nonvacuous :
   let b := [x61; xc3; xa9; xf0; x9f; x98; x80; x5c; x75; x64; x38; x30; x30; x78; x5c; x6e; x3c] in
   unquote b = [x61; xc3; xa9; xf0; x9f; x98; x80; xef; xbf; xbd; x78; x0a; x3c] /\
